@@ -22,6 +22,10 @@ Inductive cstep :=
 | KAnnCount (ih : list Z) (v6 : bool)
 | KAnnSelect (a : ann) (o_complete o_incomplete : Z) (o_peers : list (list Z))
 | KAnnApply (a : ann)
+  (* the membership update of a STOPPED announce is two store operations (DeleteSeeder, then DeleteLeecher, results
+     ignored): two steps - swarm_interaction for EvStopped is by definition their composition *)
+| KAnnStopS (a : ann)
+| KAnnStopL (a : ann)
   (* one per-swarm step of an expiry pass; a swarm that did not exist when the pass took its
      snapshot may or may not be visited *)
 | KGcOne (ih : list Z) (v6 : bool) (cutoff : Z) (may_skip : bool).
@@ -42,7 +46,10 @@ Record ccase := {
   c_final2 : list (list Z * bool * bool * list Z * Z);   (* membership dump after them *)
   (* memory store: every lock operation performed during the concurrent phase, in order:
      (thread, shard, write mode, acquire [true] / release [false]) *)
-  c_locks : list (Z * Z * bool * bool)
+  c_locks : list (Z * Z * bool * bool);
+  (* ADVISORY: thread indices in the order the driver saw the steps take effect.  The search tries this ordering
+     first and explores every other one when it fails, so the hint can make the search faster, never change its answer *)
+  c_hint : list nat
 }.
 
 Definition mk_a ih v6 pid ip port lft ev nw : ann :=
@@ -88,6 +95,8 @@ Definition do_step (clock : Z) (st : spec) (loc : tlocal) (k : cstep) (skip : bo
       if sel_verdict c i Sk Lk a oc oi peers then Some (st, None) else None
     end
   | KAnnApply a => Some (swarm_interaction spec_if a clock st, loc)
+  | KAnnStopS a => Some ((st_del_seeder spec_if (a_ih a) (a_v6 a) (a_key a) st).1, loc)
+  | KAnnStopL a => Some ((st_del_leecher spec_if (a_ih a) (a_v6 a) (a_key a) st).1, loc)
   | KGcOne ih v6 T may_skip => if skip && may_skip then Some (st, loc) else Some (sm_gc_one T (ih, v6) st, loc)
   end.
 
@@ -107,9 +116,10 @@ Definition final_matches (st : spec) (keys : list (list Z * bool)) (entries : li
     forallb (fun e : entry => match leechers sw !! e.1.2 with Some t => t =? e.2 | None => false end) el) keys.
 
 (* depth-first search over the interleavings of the threads (program order kept), with the
-   per-step choice "skip" for skippable expiry steps; fuel = total number of steps + 1 *)
+   per-step choice "skip" for skippable expiry steps; fuel = total number of steps + 1.  At every level the thread
+   the hint names is tried first, then all the others: complete whatever the hint says. *)
 Fixpoint search (fuel : nat) (clock : Z) (keys : list (list Z * bool)) (entries : list entry)
-         (post : list sop) (entries2 : list entry)
+         (post : list sop) (entries2 : list entry) (hint : list nat)
          (st : spec) (threads : list (list cstep * tlocal)) : bool :=
   match fuel with
   | O => false
@@ -118,28 +128,46 @@ Fixpoint search (fuel : nat) (clock : Z) (keys : list (list Z * bool)) (entries 
     then final_matches st keys entries &&
          final_matches (fold_left (sapply spec_if) post (st, clock)).1 keys entries2
     else
-      (fix pick (before : list (list cstep * tlocal)) (rest : list (list cstep * tlocal)) : bool :=
+      let hs := tl hint in
+      let run_at (before : list (list cstep * tlocal)) (steps : list cstep) (loc : tlocal) (after : list (list cstep * tlocal)) : bool :=
+        match steps with
+        | [] => false
+        | k :: more =>
+          let try skip :=
+            match do_step clock st loc k skip with
+            | Some (st', loc') => search f clock keys entries post entries2 hs st' (before ++ (more, loc') :: after)
+            | None => false
+            end in
+          (* `if` and not `||`: vm_compute evaluates both arguments of orb *)
+          if try false then true else match k with KGcOne _ _ _ true => try true | _ => false end
+        end in
+      let hinted : option nat :=
+        match hint with
+        | h :: _ => match nth_error threads h with Some (_ :: _, _) => Some h | _ => None end
+        | [] => None
+        end in
+      if match hinted with
+         | Some h => match nth_error threads h with
+                     | Some (steps, loc) => run_at (firstn h threads) steps loc (skipn (S h) threads)
+                     | None => false
+                     end
+         | None => false
+         end
+      then true else
+      (fix pick (i : nat) (before : list (list cstep * tlocal)) (rest : list (list cstep * tlocal)) : bool :=
          match rest with
          | [] => false
          | (steps, loc) :: after =>
-           (match steps with
-            | [] => false
-            | k :: more =>
-              let try skip :=
-                match do_step clock st loc k skip with
-                | Some (st', loc') => search f clock keys entries post entries2 st' (before ++ (more, loc') :: after)
-                | None => false
-                end in
-              try false || (match k with KGcOne _ _ _ true => try true | _ => false end)
-            end) || pick (before ++ [(steps, loc)]) after
-         end) [] threads
+           if (if match hinted with Some h => Nat.eqb h i | None => false end then false else run_at before steps loc after)
+           then true else pick (S i) (before ++ [(steps, loc)]) after
+         end) O [] threads
   end.
 
 Definition step_key (k : cstep) : option (list Z * bool) :=
   match k with
   | KPutS ih v6 _ | KPutL ih v6 _ | KDelS ih v6 _ _ | KDelL ih v6 _ _ | KGrad ih v6 _ | KScrape ih v6 _
   | KPeers ih v6 _ _ _ _ _ | KAnnCount ih v6 | KGcOne ih v6 _ _ => Some (ih, v6)
-  | KAnnSelect a _ _ _ | KAnnApply a => Some (a_ih a, a_v6 a)
+  | KAnnSelect a _ _ _ | KAnnApply a | KAnnStopS a | KAnnStopL a => Some (a_ih a, a_v6 a)
   end.
 Definition sop_key (o : sop) : option (list Z * bool) :=
   match o with
@@ -159,7 +187,7 @@ Definition case_keys (c : ccase) : list (list Z * bool) :=
 Definition linearizable (c : ccase) : bool :=
   let st0 := run_spec (c_setup c) in
   let n := length (concat (c_threads c)) in
-  search (S n) (c_clock c) (case_keys c) (c_final c) (c_post c) (c_final2 c) st0 (map (fun t => (t, None)) (c_threads c)).
+  search (S n) (c_clock c) (case_keys c) (c_final c) (c_post c) (c_final2 c) (c_hint c) st0 (map (fun t => (t, None)) (c_threads c)).
 
 (* ---- the lock trace of the real store against the lock machine of Model/Locks.v / MemLocks.v:
    (a) the sequence of lock operations is admissible (an acquire only while compatible with the holders, a
@@ -184,6 +212,8 @@ Definition cstep_cops (clock : Z) (k : cstep) : list cop :=
   | KPeers ih v6 _ _ _ _ _ => [CMembers ih v6]
   | KAnnSelect a _ _ _ => [CMembers (a_ih a) (a_v6 a)]
   | KAnnApply a => announce_cops a clock
+  | KAnnStopS a => [CDelSeeder (a_ih a) (a_v6 a) (a_key a)]
+  | KAnnStopL a => [CDelLeecher (a_ih a) (a_v6 a) (a_key a)]
   | KGcOne _ _ _ _ => []
   end.
 Definition prog_sections (l : list (mact shard mres)) : list (nat * bool) :=
